@@ -1094,7 +1094,7 @@ class Fn:
             tmpl, errv = self.spec["call_checks"]["::".join(su[1][1])]
             return "if %s then %s else %s" % (self.apply(tmpl, [self.ex(a, env) for a in su[2]]), paren(after(env)), ctx.ret(errv))
         sm = s[3] if (k == "let" and s[1][0] in ("pbind", "pwild") and s[3] is not None) else su
-        while sm is not None and (sm[0] == "try" or (sm[0] == "field" and sm[2] == "await")):
+        while sm is not None and (sm[0] == "try" or (sm[0] == "field" and sm[2] == "await") or (sm[0] == "mcall" and sm[2] == "map_err")):
             sm = sm[1]
         if sm is not None and sm[0] == "mcall" and sm[1][0] == "path" and len(sm[1][1]) == 1 and (sm[1][1][0] + "." + sm[2]) in self.spec.get("mcall_effects", {}):
             efft = self.spec["mcall_effects"][sm[1][1][0] + "." + sm[2]]
@@ -2119,6 +2119,63 @@ def functions():
         return "Definition g_root_pair_hash (a b : list Z) : list Z :=\n  %s." % text
     out.append(("root_pair_hash", "src/bin/copia/archive.rs root_pair_hash", None, t_root_pair_hash))
 
+    def t_with_commit_lock():
+        src = read("src/bin/copia/serve.rs")
+        params, ret, body = R.find_fn(src, "with_commit_lock", None)
+        if not params or params[0][0] != "lockdir":
+            raise Unsupported("signature of with_commit_lock is %s" % params)
+        spec = dict(try_transparent=True, str_literals=True, opens={"OPEN_LOCK": "LOpen {0}"},
+                    calls={".join": ("({0}, {1})", "Place"), "f": ("tt", "T")},
+                    effects={"fs2::FileExt::unlock": "LUnlock (* {0} *)", "f": "LBody"},
+                    mcall_effects={"lf.lock_exclusive": "LLockExclusive"}, ok=lambda s_: "effs", prologue="let effs := [] in ")
+        # `OpenOptions::new().create(true).truncate(false).write(true).open(P)?` is checked literally and read as "open (create) P"
+        want_open = R.Parser(R.tokenize("{ std::fs::OpenOptions::new().create(true).truncate(false).write(true).open(lockdir.join(\"commit.lock\"))? }")).block()[2]
+        norm = lambda x: json.loads(json.dumps(x))
+        stmts = list(body[1])
+        if not stmts or stmts[0][0] != "let" or stmts[0][1] != ("pbind", "lf") or norm(stmts[0][3]) != norm(want_open):
+            raise Unsupported("with_commit_lock: the lock file is no longer opened by `OpenOptions::new().create(true).truncate(false).write(true).open(lockdir.join(\"commit.lock\"))?`")
+        stmts[0] = ("expr", ("call", ("path", ["OPEN_LOCK_EFFECT"]), []), True)
+        spec["effects"]["OPEN_LOCK_EFFECT"] = "LOpenLockFile"
+        fn = Fn(spec)
+        text = spec["prologue"] + fn.block(("block", stmts, body[2]), {"lockdir": "Path", "f": "Closure", "lf": "File"}, Ctx(val=(lambda x: x), ret=(lambda x: x), fall=None))
+        return "Definition g_with_commit_lock : list leffect :=\n  %s." % text
+    out.append(("with_commit_lock", "src/bin/copia/serve.rs with_commit_lock", None, t_with_commit_lock))
+
+    def t_pull_stream():
+        src = read("src/bin/copia/dir_sync.rs")
+        params, ret, body = R.find_fn(src, "transfer_file_from_remote", None)
+        if [n for n, _ in params] != ["host", "remote_path", "local_path"]:
+            raise Unsupported("signature of transfer_file_from_remote is %s" % params)
+        def has(n, pathsegs):
+            if isinstance(n, tuple):
+                if len(n) == 2 and n[0] == "path" and list(n[1]) == pathsegs:
+                    return True
+                return any(has(x, pathsegs) for x in n)
+            if isinstance(n, list):
+                return any(has(x, pathsegs) for x in n)
+            return False
+        stmts = []
+        for st in body[1]:
+            if st[0] == "let" and st[1] == ("pbind", "child") and has(st[3], ["tokio", "process", "Command", "new"]):
+                stmts.append(("expr", ("call", ("path", ["SPAWN_SSH"]), []), True))     # its command text: group PushCommand (g_pull_command)
+            elif st[0] == "let" and st[1] == ("pbind", "stdout"):
+                stmts.append(("let", ("pbind", "stdout"), None, ("path", ["UNIT"]), None))
+            elif st[0] == "let" and st[1] == ("pbind", "escaped"):
+                continue
+            else:
+                stmts.append(st)
+        spec = dict(try_transparent=True, ignored_calls=["drop"], consts={"UNIT": ("tt", "Handle")},
+                    effects={"SPAWN_SSH": "TSpawn", "tokio::fs::File::create": "TCreateTruncate (* {0} *)", "tokio::io::copy": "TCopy (* {0} {1} *)"},
+                    mcall_effects={"file.flush": "TFlush", "child.wait_with_output": "TWait"},
+                    fields={("()", "status"): ("{0}", "Status"), ("()", "stderr"): ("{0}", "Vec<u8>")},
+                    calls={".success": ("ssh_ok (* {0} *)", "bool"), "String::from_utf8_lossy": ("tt (* {0} *)", "String")},
+                    ok=lambda s_: "effs ++ [TDone]", errs=[(r"SSH failed", "effs ++ [TFail]")], prologue="let effs := [] in ")
+        fn = Fn(spec)
+        env = {"host": "str", "remote_path": "str", "local_path": "Path"}
+        text = spec["prologue"] + fn.block(("block", stmts, body[2]), env, Ctx(val=(lambda x: x), ret=(lambda x: x), fall=None))
+        return "Definition g_pull_stream (ssh_ok : bool) : list teffect :=\n  %s." % text
+    out.append(("pull_stream", "src/bin/copia/dir_sync.rs transfer_file_from_remote (its calls, in order)", None, t_pull_stream))
+
     def t_dvalidate():
         src = read("src/delta.rs")
         spec = dict(fields={("Delta", "ops"): ("(d_ops _ {0})", "Vec<DeltaOp>"), ("Delta", "basis_size"): ("(d_basis_size _ {0})", "u64")},
@@ -2955,6 +3012,7 @@ GROUPS = {
     "BisyncRun": ("", "bisyncrun", ["run_bisync"]),
     "HubSync": ("", "hubsync", ["hub_sync"]),
     "ServeLoop": ("", "serveloop", ["serve"]),
+    "CommitLock": ("", "commitlock", ["with_commit_lock", "pull_stream"]),
     "HubWireClient": ("", "hubwireclient", ["client_put", "client_list"]),
     "BisyncSys": ("", "bisyncsys", ["copy_atomic"]),
     "ArchiveSave": ("Model.ArchiveSys", "archivesys", ["archive_save"]),
@@ -3178,6 +3236,9 @@ def main():
             body = (HEADER % (group, "")).replace(" .\n", ".\n") + ("\nSection WithHash.\nVariable D : Type.\nVariable Hh : list Z -> D.            (* BLAKE3 *)\n"
                      "Variable hex_of : D -> list Z.           (* its 64 hexadecimal digits *)\n"
                      "Variable canon : list Z -> list Z.        (* std::fs::canonicalize(p), or p itself when that fails *)\n\n" + "\n".join(texts) + "End WithHash.\n")
+        elif digest == "commitlock":
+            body = (HEADER % (group, "")).replace(" .\n", ".\n") + ("\n(* what with_commit_lock does, in order *)\nInductive leffect := LOpenLockFile | LLockExclusive | LBody | LUnlock.\n"
+                    "(* what transfer_file_from_remote does, in order *)\nInductive teffect := TSpawn | TCreateTruncate | TCopy | TFlush | TWait | TDone | TFail.\n\n" + "\n".join(texts))
         elif digest == "plainz":
             body += "\n" + "\n".join(texts)
         elif digest == "archivesys":
